@@ -285,6 +285,25 @@ class FnTranslator:
             if a[1] == 'B' and b[1] == 'B' and isinstance(op, (ast.Eq, ast.NotEq)):
                 t = '(Bool.eqb %s %s)' % (a[0], b[0])
                 return (t if isinstance(op, ast.Eq) else '(negb %s)' % t, 'B')
+            if (a[1] in ('OQ', 'OZ') or b[1] in ('OQ', 'OZ')) and a[1] in ('Z', 'Q', 'OQ', 'OZ') and b[1] in ('Z', 'Q', 'OQ', 'OZ') \
+                    and isinstance(op, (ast.Lt, ast.LtE, ast.Gt, ast.GtE, ast.Eq, ast.NotEq)):
+                # [loop ties C16-C18] comparison of an optional number (a float that may be NaN, consistent with the
+                # NaN-propagating arithmetic of `lift`): IEEE / numpy / Python -- every ordered comparison and == with NaN
+                # is False, != is True; on present operands it is the plain comparison (translated by the code below)
+                env2, binds = dict(env), []
+                for side, v in (('cmp_l__', a), ('cmp_r__', b)):
+                    if v[1] in ('OQ', 'OZ'):
+                        nm = self.new('o')
+                        binds.append((v[0], nm))
+                        env2[side] = (nm, 'Q' if v[1] == 'OQ' else 'Z')
+                    else:
+                        env2[side] = v
+                term = self.expr(ast.Compare(left=ast.Name(id='cmp_l__', ctx=ast.Load()), ops=[op],
+                                             comparators=[ast.Name(id='cmp_r__', ctx=ast.Load())]), env2)[0]
+                nan = 'true' if isinstance(op, ast.NotEq) else 'false'
+                for src, nm in reversed(binds):
+                    term = '(match %s with Some %s => %s | None => %s end)' % (src, nm, term, nan)
+                return (term, 'B')
             x, y, ty = self.num2(a, b)
             if ty == 'Z':
                 tbl = {ast.Lt: '(Z.ltb %s %s)', ast.LtE: '(Z.leb %s %s)', ast.Eq: '(Z.eqb %s %s)',
@@ -383,6 +402,29 @@ class FnTranslator:
                     raise Refuse('%s: %s returns %s, the spec yields %s' % (self.rel, e.func.id, rty, tys))
                 return ('(%s ++ [%s])' % (env['yield__'][0], term), 'Y')
             elts = e.elts if isinstance(e, ast.Tuple) else [e]
+            sv = getattr(self, 'slice_views', None)
+            if sv:
+                # [loop ties C16] spec key `slice_views=dict(base='t.data.iloc', wrappers=['t.as_dataframe'], length='len(t)')`:
+                # a yielded component `t.as_dataframe(t.data.iloc[a:b])` (or the bare `t.data.iloc[a:b]`) is the rows
+                # [a, b) of the table by position; it is yielded as the TWO integers a, b (a missing lower bound is 0,
+                # a missing upper bound the declared length expression; no step)
+                flat = []
+                for x in elts:
+                    node = x
+                    if isinstance(node, ast.Call) and len(node.args) == 1 and not node.keywords \
+                            and ast.unparse(node.func) in sv.get('wrappers', []):
+                        node = node.args[0]
+                    if isinstance(node, ast.Subscript) and isinstance(node.slice, ast.Slice) and node.slice.step is None \
+                            and ast.unparse(node.value) == sv['base']:
+                        lo = node.slice.lower if node.slice.lower is not None else ast.Constant(value=0)
+                        hi = node.slice.upper if node.slice.upper is not None else ast.parse(sv['length'], mode='eval').body
+                        for b in (lo, hi):
+                            if self.expr(b, env)[1] != 'Z':
+                                raise Refuse('%s: slice bound %s is not an integer' % (self.rel, ast.unparse(b)))
+                        flat += [lo, hi]
+                    else:
+                        flat.append(x)
+                elts = flat
             if len(elts) != len(tys):
                 raise Refuse('%s: a %d-tuple is yielded where the spec declares %d components' % (self.rel, len(elts), len(tys)))
             vals = [self.coerce(self.expr(x, env), t) for x, t in zip(elts, tys)]
@@ -504,6 +546,10 @@ class FnTranslator:
             raise Refuse('%s: unsupported method .%s' % (self.rel, f.attr))
         if isinstance(f, ast.Name):
             args = [self.expr(a, env) for a in n.args]
+            if f.id == 'abs' and len(args) == 1 and args[0][1] in ('OQ', 'OZ'):
+                # [loop ties C16-C18] abs of an optional number: NaN stays NaN (as the .abs() method below)
+                return self.lift(args, lambda vs: ('(Qabs %s)' % self.toQ(vs[0]), 'Q') if vs[0][1] != 'Z'
+                                 else ('(Z.abs %s)' % vs[0][0], 'Z'))
             if f.id == 'abs' and len(args) == 1:
                 if args[0][1] == 'Z':
                     return ('(Z.abs %s)' % args[0][0], 'Z')
@@ -626,6 +672,24 @@ class FnTranslator:
             if isinstance(s, ast.Expr) and isinstance(s.value, ast.Call) and ast.unparse(s.value.func).startswith('logging.'):
                 continue                              # a log line: no effect on any value
             if isinstance(s, ast.Expr) and isinstance(s.value, ast.Call) and isinstance(s.value.func, ast.Attribute) \
+                    and s.value.func.attr == 'append' and isinstance(s.value.func.value, ast.Name) \
+                    and len(s.value.args) == 1 and not s.value.keywords and getattr(self, 'yield_types', None) \
+                    and s.value.func.value.id == getattr(self, 'append_yields', None):
+                # [loop ties C16] spec key `append_yields='lst'`: `lst.append(e)` on the result list the loop only ever
+                # appends to is read like `yield e` -- the tuples the iteration appends, in order
+                call = ast.Call(func=ast.Name(id='yield_append__', ctx=ast.Load()), args=[s.value.args[0]], keywords=[])
+                out.append(ast.Assign(targets=[ast.Name(id='yield__', ctx=ast.Store())], value=call))
+                continue
+            if isinstance(s, ast.Expr) and isinstance(s.value, ast.Call) and isinstance(s.value.func, ast.Attribute) \
+                    and s.value.func.attr == 'extend' and isinstance(s.value.func.value, ast.Name) \
+                    and len(s.value.args) == 1 and not s.value.keywords and getattr(self, 'yield_types', None) \
+                    and s.value.func.value.id == getattr(self, 'append_yields', None):
+                # [loop ties C16] `lst.extend(it)` on the `append_yields` result list: like `yield from it`, where `it`
+                # must be a parameter of type Y (an opaque list of the yielded tuples, keyed by its source text)
+                call = ast.Call(func=ast.Name(id='yield_extend__', ctx=ast.Load()), args=[s.value.args[0]], keywords=[])
+                out.append(ast.Assign(targets=[ast.Name(id='yield__', ctx=ast.Store())], value=call))
+                continue
+            if isinstance(s, ast.Expr) and isinstance(s.value, ast.Call) and isinstance(s.value.func, ast.Attribute) \
                     and s.value.func.attr in ('extend', 'append') and isinstance(s.value.func.value, ast.Name) \
                     and len(s.value.args) == 1 and not s.value.keywords:
                 # x.extend(l) -> x = x + l ;  x.append(e) -> x = x + [e]   (lists are values in the translation)
@@ -657,6 +721,21 @@ class FnTranslator:
                     out.append(ast.Assign(targets=[ast.Name(id=tm, ctx=ast.Store())], value=v))
                 for t, tm in zip(s.targets[0].elts, tmps):
                     out.append(ast.Assign(targets=[ast.Name(id=t.id, ctx=ast.Store())], value=ast.Name(id=tm, ctx=ast.Load())))
+                continue
+            if isinstance(s, ast.Assign) and len(s.targets) == 1 and isinstance(s.targets[0], ast.Tuple) \
+                    and not isinstance(s.value, (ast.Tuple, ast.List)) \
+                    and all(isinstance(t, (ast.Name, ast.Subscript)) for t in s.targets[0].elts):
+                # [loop ties C17] a, b = e  with e not a tuple display: unpacking a sequence is indexing it --
+                # a = e[0]; b = e[1] (a wrong length is an error path).  e is an opaque input here: it translates
+                # only when the spec declares the source expressions `e[0]`, `e[1]` as typed parameters
+                parts = []
+                for k, t in enumerate(s.targets[0].elts):
+                    item = ast.Subscript(value=self.as_load(s.value), slice=ast.Constant(value=k), ctx=ast.Load())
+                    a = ast.Assign(targets=[t], value=item)
+                    a.lineno, a.col_offset = 0, 0
+                    ast.fix_missing_locations(a)
+                    parts.append(a)
+                out += self.desugar(parts)
                 continue
             tgt = val = None
             if isinstance(s, ast.AugAssign):
@@ -1103,6 +1182,8 @@ class FnTranslator:
         self.loop_carried = None
         self.loop_has_break = False
         self.yield_types = None
+        self.append_yields = sp.get('append_yields')       # [loop ties C16] see desugar
+        self.slice_views = sp.get('slice_views')           # [loop ties C16] see yield_append__ in call()
         loop = sp.get('loop')
         if loop:
             # ONE ITERATION of a for/while loop as a function of the loop-carried variables (declared in `carried` as
@@ -1183,6 +1264,14 @@ class FnTranslator:
                                     raise Refuse('%s: the opaque range stores into %s, which is used outside it and not declared' % (self.rel, x.id))
                             if isinstance(x, ast.Return):
                                 raise Refuse('%s: the opaque range leaves the iteration' % self.rel)
+                            if isinstance(x, ast.Subscript) and isinstance(x.ctx, ast.Store) and isinstance(x.value, ast.Name) \
+                                    and x.value.id not in declared and any(
+                                        isinstance(y, ast.Name) and isinstance(y.ctx, ast.Store) and y.id == x.value.id
+                                        for y in ast.walk(mod)):
+                                # [loop ties C16] a store into a container the range itself binds (e.g. the loop variable
+                                # of an inner `for row in ...: row['c'] = v; yield row`): local to the range -- the name
+                                # passed the not-used-outside check above and the effect is in the declared yields
+                                continue
                             if isinstance(x, ast.Subscript) and isinstance(x.ctx, ast.Store):
                                 raise Refuse('%s: the opaque range stores into a container' % self.rel)
                         def leaves(nodes):       # a break / continue that is not inside a loop of the range itself
